@@ -1,22 +1,24 @@
 """C14, Google / NumPy docstring parser — model correspondence (lean/CddVerif/Model/DocGN.lean) and the C14 oracle on the real outputs.
 
 Not a property check of its own: `harness/props/c14.py : run` calls `run_gn(chk, chk.rng, core.DRIVER.exists())`.
-Theorems (module CddVerif.Properties.C14GN) are listed in `MODULE` / `THEOREMS` for `chk.lean`.
+Theorems: `MODULE` (CddVerif.Properties.C14GN, which imports Properties/C14.lean, so one `chk.lean(c14gn.MODULE, THEOREMS + c14gn.THEOREMS)`
+audits both theorem sets).
 """
 from __future__ import annotations
 
 import copy
 import json
+import warnings
 
 from harness import core
 from harness.gen import ir as G
 from harness.impl import docir
 
 MODULE = "CddVerif.Properties.C14GN"
-THEOREMS = ["C14GN.parseGN_wf", "C14GN.parseDocstring_wf", "C14GN.sntName_no_star", "C14GN.dictInsert_keys", "C14GN.dictInsert_nodup",
-            "C14GN.foldParams_wf", "C14GN.shape_by_construction", "C14GN.dup_last_wins", "C14GN.C14GN_full_false",
-            "C14GN.empty_name_google", "C14GN.empty_name_numpydoc", "C14GN.empty_typ_google", "C14GN.empty_typ_numpydoc",
-            "C14GN.optional_empty_google", "C14GN.colonless_entry_truncates", "C14GN.star_names_merge"]
+THEOREMS = ["C14GN.parseGN_wf", "C14GN.parseDocstring_wf", "C14GN.parsePhase_wf", "C14GN.shape_by_construction", "C14GN.units_nonempty", "C14GN.star_names_merge",
+            "C14GN.dup_last_wins", "C14GN.empty_name_google", "C14GN.empty_name_numpydoc", "C14GN.empty_typ_google", "C14GN.empty_typ_numpydoc", "C14GN.optional_empty_google",
+            "C14GN.C14GN_full_false", "C14GN.colonless_entry_truncates", "DocGN.sntName_no_star", "DocGN.dictInsert_keys", "DocGN.dictInsert_nodup", "DocGN.dictInsert_lookup",
+            "DocGN.foldParams_wf", "DocGN.scanPhase_args_ne"]
 GN = ("google", "numpydoc")
 
 # ---------------------------------------------------------------------------------------------------------------
@@ -408,7 +410,10 @@ def run_gn(chk: core.Check, rng, have_driver: bool) -> None:
             continue
         style = g["style"] if g["stream"] in ("structured", "emitted") and forced is None else "arbitrary-text"
         accepted["docstring-gn-" + g["stream"]] = accepted.get("docstring-gn-" + g["stream"], 0) + 1
-        for clause, detail in c14.wf_problems(c14.unstrip(r["ir"])):
+        with warnings.catch_warnings():
+            warnings.simplefilter("ignore", SyntaxWarning)  # ast.parse of odd type strings
+            problems = c14.wf_problems(c14.unstrip(r["ir"]))
+        for clause, detail in problems:
             sig = {"parser": "docstring", "style": style, "clause": clause, "detail": detail.split(":")[-1] if clause == "typ-unparsable" else None}
             if style != "arbitrary-text":
                 sig["has_empty_typ"] = g.get("has_empty_typ") if clause in ("typ-empty", "typ-unparsable") else None
